@@ -28,7 +28,7 @@ PROP = {
                 {"name": "c16.inv", "shards": {"quick": 1, "thorough": 4}}],
     "modules": ["GbVerif.Model.Sys", "GbVerif.Model.Timer", "GbVerif.Model.Lcd", "GbVerif.Proofs.SysTotal", "GbVerif.Proofs.SysBatch", "GbVerif.Proofs.Timer", "GbVerif.Proofs.Lcd", "GbVerif.Proofs.BusIo", "GbVerif.Model.Bus", "GbVerif.Model.Cart", "GbVerif.Proofs.BusBasic", "GbVerif.Proofs.BusWf", "GbVerif.Proofs.BusDma"],
     "exhaustive": False,
-    "rule": "c16: one scenario = cartridge (6 configurations: ROM only, MBC1/MBC3 with 0/2K/32K/128K RAM) x source page (quick: 40 "
+    "rule": "one scenario in three runs with the LCD on (LCDC bit 7 set, up to 72 000 clocks of lead-in): a transfer is longer than a line, so it overlaps modes 2 and 3 outside VBlank; c16: one scenario = cartridge (6 configurations: ROM only, MBC1/MBC3 with 0/2K/32K/128K RAM) x source page (quick: 40 "
             "pages incl. 0x00 0x3F 0x40 0x7F 0x80 0x9F 0xA0 0xBF 0xC0 0xDF 0xE0 0xFD 0xFE 0xFF; thorough: all 256) x partition style "
             "(one batch; 160+ batches of 4 clocks; random sizes from {4..1000}; fixed size 8/12/16/28/156/320/636), total 640..1000 "
             "clocks, optional idle time first, bank-register setup for banked sources, and with probability 1/3 (1/12 for the "
